@@ -460,6 +460,7 @@ def run_one(part, seed):
 
 
 def run(ctx):
+    model_batch(ctx, 140 if ctx.tier == 'quick' else 1400)
     reps = {'bootstrap': 12, 'cdd': 25, 'shrinkage': 25, 'delta_method': 40, 'simeval': 25}
     if ctx.tier != 'quick':
         reps = {k: v * 12 for k, v in reps.items()}
@@ -492,3 +493,179 @@ def run(ctx):
     ctx.notes.append('resampling / diagnostic statistics: VALIDATION ONLY (exact rational recomputation, tolerance 1e-9), '
                      'not part of the proof obligations')
     ctx.log('statistics validation done', {k: v['values_compared'] for k, v in out.items() if isinstance(v, dict) and 'values_compared' in v})
+
+
+# =====================================================================================================================
+# Modelled part (coq/theories/C19/Stats.v): the same tools, but compared INSIDE Coq with the model of the array pipeline
+# (tags 31-36) and with the documented formula by name (tag 41).  Inputs are dyadic; means over 2^k values, biases and
+# the jackknife matrix are compared exactly, everything that goes through a division by n-1, a square root or a
+# Cholesky solve with relative tolerance 1e-12 (a reported root r through r*r).
+def _q(x):
+    from harness.lib import coqterm as ct
+    return ct.q(F(x))
+
+
+def _oq(x):
+    x = float(x)
+    return 'None' if (math.isnan(x) or math.isinf(x)) else f'(Some {_q(x)})'
+
+
+def _lst(items):
+    return '[' + '; '.join(items) + ']'
+
+
+def _series(d, order, ids):
+    return _lst([f'({ids(n)}, {"None" if d[n] is None else "(Some " + _q(d[n]) + ")"})' for n in order])
+
+
+def inverse(M):
+    n = len(M)
+    cols = [solve(M, [F(1) if i == j else F(0) for i in range(n)]) for j in range(n)]
+    return [[cols[j][i] for j in range(n)] for i in range(n)]
+
+
+def model_case(rng, kind, ids):
+    """one case of Stats.stcase as a Gallina term, built from the REAL tool output"""
+    import numpy as np
+    import pandas as pd
+    from pharmpy.workflows import ModelfitResults
+    dy = lambda lo, hi, den: F(rng.randrange(lo, hi), den)
+    if kind == 'boot':
+        from pharmpy.tools.bootstrap.results import calculate_results
+        npar = rng.choice([1, 2, 3, 4])
+        names = ['P%d' % i for i in range(npar)]
+        style = rng.choice(['plain', 'permuted', 'permuted', 'ragged'])
+        nrep = rng.choice([2, 4, 8, 16, 32]) if style != 'ragged' else rng.choice([3, 5, 8, 13])
+        reps, orders = [], []
+        for k in range(nrep):
+            d = {nm: dy(-200, 400, rng.choice([1, 2, 4, 8, 16])) for nm in names}
+            if style == 'ragged' and npar > 1 and rng.random() < 0.3:
+                del d[rng.choice(names)]
+            if style != 'plain' and rng.random() < 0.3 and (k > 0 or style == 'ragged'):
+                d['X_EXTRA'] = dy(0, 40, 4)       # an extra label (not in the first replicate of an 'exact' case: 2^k counts)
+            order = list(d)
+            if style != 'plain':
+                rng.shuffle(order)
+            reps.append(d)
+            orders.append(order)
+        orig = {nm: dy(-200, 400, 8) for nm in names}
+        oorder = list(names)
+        if style != 'plain':
+            rng.shuffle(oorder)
+            if style == 'ragged' and npar > 1:
+                oorder = oorder[:-1]
+        with_orig = rng.random() < 0.85
+        results = [ModelfitResults(ofv=1.0, parameter_estimates=pd.Series([float(d[n]) for n in o], index=o)) for d, o in zip(reps, orders)]
+        origr = ModelfitResults(ofv=1.0, parameter_estimates=pd.Series([float(orig[n]) for n in oorder], index=oorder),
+                                individual_ofv=pd.Series([1.0], index=[1])) if with_orig else None
+        with warnings.catch_warnings():
+            warnings.simplefilter('ignore')
+            r = calculate_results(None, results, original_results=origr, included_individuals=[[1]] * nrep)
+        cols = list(r.parameter_estimates.columns)
+        ps, cm = r.parameter_statistics, r.covariance_matrix
+        obs = [f"(mkBootobs {ids(c)} {_oq(ps.loc[c, 'mean'])} {_oq(ps.loc[c, 'bias'])} {_oq(ps.loc[c, 'stderr'])} {_oq(ps.loc[c, 'RSE'])})"
+               for c in cols]
+        cov = [_lst([_oq(cm.loc[a, b]) for b in cols]) for a in cols]
+        exact = 'true' if style != 'ragged' else 'false'
+        return (f"(StBoot {exact} {_lst([_series(d, o, ids) for d, o in zip(reps, orders)])} "
+                f"{'(Some ' + _series(orig, oorder, ids) + ')' if with_orig else 'None'} {_lst(obs)} {_lst(cov)})")
+    if kind in ('jack', 'cook'):
+        from pharmpy.tools.cdd.results import compute_cook_scores, compute_jackknife_covariance_matrix
+        npar = rng.choice([1, 2, 3, 4])
+        names = ['P%d' % i for i in range(npar)]
+        ncase = rng.choice([2, 4, 8, 16, 32])
+        base = {nm: dy(-40, 80, 8) for nm in names}
+        cases = [{nm: base[nm] + dy(-16, 17, 16) for nm in names} for _ in range(ncase)]
+        orders = [rng.sample(names, npar) for _ in range(ncase)]
+        df = pd.DataFrame(data=[pd.Series([float(c[n]) for n in o], index=o, name='c%d' % i) for i, (c, o) in enumerate(zip(cases, orders))])
+        if kind == 'jack':
+            J = compute_jackknife_covariance_matrix(df)
+            cols = list(J.columns)
+            return (f"(StJack {_lst([ids(c) for c in cols])} {_lst([_series(c, o, ids) for c, o in zip(cases, orders)])} "
+                    f"{_lst([_lst([_q(J.loc[a, b]) for b in cols]) for a in cols])})")
+        C = spd(rng, npar)
+        border = rng.sample(names, npar)
+        ix = {nm: j for j, nm in enumerate(names)}
+        Cb = [[C[ix[a]][ix[b]] for b in border] for a in border]
+        cov_df = pd.DataFrame([[float(x) for x in row] for row in Cb], index=border, columns=border)
+        cooks = compute_cook_scores(pd.Series([float(base[n]) for n in border], index=border), df, cov_df)
+        if cooks is None:
+            raise RuntimeError('compute_cook_scores returned None on a positive definite matrix')
+        cinv = inverse(Cb)
+        return (f"(StCook {_lst([ids(c) for c in border])} {_lst([_lst([_q(x) for x in row]) for row in cinv])} {_series(base, border, ids)} "
+                f"{_lst([_series(c, o, ids) for c, o in zip(cases, orders)])} {_lst([_oq(x) for x in cooks])})")
+    if kind in ('shrink', 'ishr'):
+        from pharmpy.modeling import calculate_eta_shrinkage, calculate_individual_shrinkage, load_example_model
+        if not _PHENO:
+            _PHENO.append(load_example_model('pheno'))
+        model = _PHENO[0]
+        etas = model.random_variables.etas.names
+        omn = ['IIV_CL', 'IIV_VC']
+        om = [F(rng.randrange(1, 64), 64) for _ in omn]
+        pe = pd.Series([float(x) for x in om], index=omn)
+        if rng.random() < 0.5:
+            pe = pe[::-1]                                   # label order of the estimates must not matter
+        nind = rng.choice([2, 3, 5, 8, 16])
+        if kind == 'shrink':
+            ie = [[None if (rng.random() < 0.1 and nind > 3) else dy(-32, 33, 64) for _ in etas] for _ in range(nind)]
+            df = pd.DataFrame([[float('nan') if x is None else float(x) for x in row] for row in ie], columns=etas, index=range(1, nind + 1))
+            sv, ss = calculate_eta_shrinkage(model, pe, df), calculate_eta_shrinkage(model, pe, df, sd=True)
+            cols = _lst([f"({ids(e)}, {_lst(['None' if row[j] is None else '(Some ' + _q(row[j]) + ')' for row in ie])})" for j, e in enumerate(etas)])
+            return (f"(StShrink {_lst([_q(x) for x in om])} {cols} {_lst([_oq(sv[e]) for e in etas])} {_lst([_oq(ss[e]) for e in etas])})")
+        covs = [spd(rng, 2) for _ in range(nind)]
+        ser = pd.Series([pd.DataFrame([[float(x) / 64 for x in row] for row in Ci], index=etas, columns=etas) for Ci in covs], index=range(1, nind + 1))
+        ish = calculate_individual_shrinkage(model, pe, ser)
+        return (f"(StIshr {_lst([_q(x) for x in om])} {_lst([_lst([_q(float(Ci[j][j]) / 64) for j in range(2)]) for Ci in covs])} "
+                f"{_lst([_lst([_oq(ish.iloc[i][e]) for e in etas]) for i in range(nind)])})")
+    if kind == 'delta':
+        import sympy
+        from pharmpy.internals.math import se_delta_method
+        names = ['CL', 'V', 'KA']
+        vals = {nm: F(rng.randrange(1, 40), 8) for nm in names}
+        C = spd(rng, 3)
+        order = rng.sample(names, 3)
+        ix = {nm: j for j, nm in enumerate(names)}
+        Co = [[C[ix[a]][ix[b]] for b in order] for a in order]
+        cov_df = pd.DataFrame([[float(x) for x in row] for row in Co], index=order, columns=order)
+        CL, V, KA = sympy.symbols('CL V KA')
+        kind2 = rng.choice(['ratio', 'product', 'sum', 'half'])
+        if kind2 == 'ratio':
+            expr, grad = CL / V, {'CL': 1 / vals['V'], 'V': -vals['CL'] / vals['V'] ** 2}
+        elif kind2 == 'product':
+            expr, grad = CL * V * KA, {'CL': vals['V'] * vals['KA'], 'V': vals['CL'] * vals['KA'], 'KA': vals['CL'] * vals['V']}
+        elif kind2 == 'sum':
+            expr, grad = 2 * CL + 3 * KA, {'CL': F(2), 'KA': F(3)}
+        else:
+            expr, grad = V ** 2 / (CL + KA), {'V': 2 * vals['V'] / (vals['CL'] + vals['KA']),
+                                              'CL': -vals['V'] ** 2 / (vals['CL'] + vals['KA']) ** 2,
+                                              'KA': -vals['V'] ** 2 / (vals['CL'] + vals['KA']) ** 2}
+        got = se_delta_method(expr, {k: float(v) for k, v in vals.items()}, cov_df)
+        return (f"(StDelta {_lst([ids(c) for c in order])} {_lst([_lst([_q(x) for x in row]) for row in Co])} "
+                f"{_lst([f'({ids(k)}, {_q(v)})' for k, v in grad.items()])} {_q(float(got))})")
+    raise ValueError(kind)
+
+
+def model_batch(ctx, n):
+    """cases of the MODELLED statistics, compared inside Coq"""
+    from harness.lib import coqterm as ct
+    names = ct.Names()
+    ids = lambda s: names.p(str(s))
+    kinds = ['boot', 'boot', 'jack', 'cook', 'shrink', 'ishr', 'delta']
+    terms, ks = [], []
+    for i in range(n):
+        k = kinds[i % len(kinds)]
+        terms.append(model_case(random.Random(f'{ctx.seed}-statmodel-{k}-{i}'), k, ids))
+        ks.append(k)
+    verdicts = ctx.run_cases('statmodel', 'C19.Model C19.Stats', 'stcase', terms, 'stverdict', shard=60)
+    nbad = 0
+    for i, (k, v) in enumerate(zip(ks, verdicts)):
+        if 41 in v:
+            ctx.violation('statistic does not equal its documented formula by name: ' + k,
+                          {'stats_model': {'kind': k, 'seed': f'{ctx.seed}-statmodel-{k}-{i}'}, 'tags': v})
+            nbad += 1
+        elif v:
+            ctx.broken.append(f'correspondence C19 statistics model vs implementation ({k}, tags {sorted(set(v))}, seed {ctx.seed}-statmodel-{k}-{i})')
+            nbad += 1
+    ctx.coverage['statistics_model_cases'] = {'cases': n, 'by_kind': {k: ks.count(k) for k in sorted(set(ks))}, 'disagreements': nbad}
+    ctx.coverage['evaluations'] += n
+    ctx.log('modelled statistics cases done', ctx.coverage['statistics_model_cases'])
